@@ -44,6 +44,10 @@ class SqliteWorkflowStore(AbstractWorkflowStore):
         self._conditions: weakref.WeakValueDictionary[str, asyncio.Condition] = (
             weakref.WeakValueDictionary()
         )
+        # one state-store lock per run, shared by all state store objects of the run
+        self._state_locks: weakref.WeakValueDictionary[str, asyncio.Lock] = (
+            weakref.WeakValueDictionary()
+        )
         if single_connection:
             self._persistent_conn = self._open_nolock(db_path)
         if auto_migrate:
@@ -83,6 +87,7 @@ class SqliteWorkflowStore(AbstractWorkflowStore):
             run_id=run_id,
             state_type=state_type,
             connection=self._persistent_conn,
+            run_locks=self._state_locks,
         )
         if serialized_state is not None and serializer is not None:
             store._seed_from_serialized(serialized_state, serializer)
